@@ -27,14 +27,22 @@ pub struct Profile {
 	pub allow_force_close: bool,
 	/// model of manager persistence: the scenario writes the manager out often (like a background processor)
 	pub persist_manager_often: bool,
+	/// two channels per edge of the line (multi-path payments, forwards from/to different channels)
+	pub parallel: bool,
+	/// payment workload: multi-part sends, sends that the recipient must refuse, duplicate payment ids,
+	/// event handlers that refuse an event, timer ticks before the final quiescent point
+	pub pay_workload: bool,
 }
 impl Profile {
 	pub fn for_prop(prop: &str, thorough: bool) -> Profile {
-		let base = Profile { prop: prop.to_string(), steps: if thorough { 1500 } else { 600 }, nodes: 2, allow_async: false, allow_deferred: false, allow_disconnect: true, allow_fee_updates: true, allow_ticks: true, coop_close_at_end: true, multi_hop: false, mid_settles: true, allow_restart: false, allow_force_close: false, persist_manager_often: false };
+		let base = Profile { prop: prop.to_string(), steps: if thorough { 1500 } else { 600 }, nodes: 2, allow_async: false, allow_deferred: false, allow_disconnect: true, allow_fee_updates: true, allow_ticks: true, coop_close_at_end: true, multi_hop: false, mid_settles: true, allow_restart: false, allow_force_close: false, persist_manager_often: false, parallel: false, pay_workload: false };
 		match prop {
 			"C01" => base,
 			"C05" => Profile { allow_async: true, allow_restart: true, allow_force_close: true, ..base },
 			"C09" => Profile { allow_async: true, allow_deferred: true, nodes: 3, multi_hop: true, allow_restart: true, ..base },
+			"C02" => Profile { allow_async: true, allow_deferred: true, nodes: 3, multi_hop: true, allow_restart: true, parallel: true, pay_workload: true, ..base },
+			"C03" => Profile { allow_async: true, nodes: 3, multi_hop: true, allow_restart: true, parallel: true, pay_workload: true, ..base },
+			"C04" => Profile { allow_async: true, nodes: 3, multi_hop: true, parallel: true, pay_workload: true, ..base },
 			"C10" => Profile { allow_async: true, allow_deferred: true, nodes: 3, multi_hop: true, allow_restart: true, persist_manager_often: true, ..base },
 			_ => base,
 		}
@@ -227,7 +235,8 @@ fn drive(sim: &mut Sim, prof: &Profile, rng: &mut Rng, rep: &mut Report, ctype: 
 	let n = prof.nodes;
 	let mut async_on = vec![false; n];
 	// --- open channels: a line 0-1-2-... ---
-	for i in 0..n - 1 {
+	let edges: Vec<usize> = (0..n - 1).flat_map(|i| if prof.parallel { vec![i, i] } else { vec![i] }).collect();
+	for i in edges {
 		let value = *rng.pick(&[20_000u64, 50_000, 100_000, 400_000, 2_000_000]) + rng.below(10_000);
 		let push = if rng.chance(1, 3) { 0 } else { rng.below(value * 1000 / 2) };
 		// under delayed-persistence profiles the opening handshake itself runs with async persisters,
@@ -268,7 +277,8 @@ fn drive(sim: &mut Sim, prof: &Profile, rng: &mut Rng, rep: &mut Report, ctype: 
 	let mut mined = 0u32;
 	for _s in 0..prof.steps {
 		sim.w.step += 1;
-		let act = rng.weighted(&[40, 14, 10, 8, 8, 8, 2, 3, 2, 1, 2, 2, 1, 2, 1, 1, if prof.allow_restart { 2 } else { 0 }]);
+		let pw = if prof.pay_workload { 1 } else { 0 };
+		let act = rng.weighted(&[40, 14, 10, 8, 8, 8, 2, 3, 2, 1, 2, 2, 1, 2, 1, 1, if prof.allow_restart { 2 } else { 0 }, 5 * pw, 4 * pw, 2 * pw, 3 * pw]);
 		match act {
 			0 => {
 				// deliver one message from a random non-empty queue
@@ -417,6 +427,7 @@ fn drive(sim: &mut Sim, prof: &Profile, rng: &mut Rng, rep: &mut Report, ctype: 
 				if prof.allow_ticks {
 					let k = rng.below(n as u64) as usize;
 					sim.w.note(format!("TICK node{}", k));
+					sim.w.obs.push_back(Obs::Api { step: sim.w.step, node: k, call: "timer_tick".into(), result: String::new() });
 					sim.w.nodes[k].mgr.timer_tick_occurred();
 					sim.w.pump(k);
 				}
@@ -566,6 +577,106 @@ fn drive(sim: &mut Sim, prof: &Profile, rng: &mut Rng, rep: &mut Report, ctype: 
 					}
 				}
 			},
+			17 => {
+				// multi-part payment over the parallel channels
+				let src = rng.below(n as u64) as usize;
+				let mut dst = rng.below(n as u64) as usize;
+				if dst == src {
+					dst = (src + 1) % n;
+				}
+				let nparts = 2 + rng.below(2) as usize;
+				let mut parts: Vec<(Vec<usize>, u64)> = vec![];
+				for _ in 0..nparts {
+					let mut chans = vec![];
+					let mut cur = src;
+					while cur != dst {
+						let next = if dst > cur { cur + 1 } else { cur - 1 };
+						let c: Vec<usize> = sim.w.chan_between(cur, next).into_iter().filter(|c| !sim.w.chans[*c].closed && sim.w.chans[*c].ready).collect();
+						if c.is_empty() {
+							chans.clear();
+							break;
+						}
+						chans.push(*rng.pick(&c));
+						cur = next;
+					}
+					if chans.is_empty() {
+						break;
+					}
+					let cid = sim.w.chans[chans[0]].chan_id();
+					let hi = sim.w.nodes[src].mgr.list_usable_channels().into_iter().find(|c| c.channel_id == cid).map(|d| d.next_outbound_htlc_limit_msat).unwrap_or(0);
+					let amt = (1000 + rng.below((hi / 4).max(1))).min(hi.max(1));
+					parts.push((chans, amt));
+				}
+				if parts.len() >= 2 {
+					sim.w.note(format!("SEND-MPP node{}->node{} parts={:?}", src, dst, parts));
+					let _ = sim.w.send_payment_ex(src, &parts, 80, crate::sim::SendOpts { class: "mpp", ..Default::default() }, None);
+				}
+			},
+			18 => {
+				// a send that the recipient must refuse, or a staged multi-part payment
+				let src = rng.below(n as u64) as usize;
+				let mut dst = rng.below(n as u64) as usize;
+				if dst == src {
+					dst = (src + 1) % n;
+				}
+				let mut chans = vec![];
+				let mut cur = src;
+				while cur != dst {
+					let next = if dst > cur { cur + 1 } else { cur - 1 };
+					let c: Vec<usize> = sim.w.chan_between(cur, next).into_iter().filter(|c| !sim.w.chans[*c].closed && sim.w.chans[*c].ready).collect();
+					if c.is_empty() {
+						chans.clear();
+						break;
+					}
+					chans.push(*rng.pick(&c));
+					cur = next;
+				}
+				if chans.is_empty() {
+					continue;
+				}
+				let cid = sim.w.chans[chans[0]].chan_id();
+				let hi = sim.w.nodes[src].mgr.list_usable_channels().into_iter().find(|c| c.channel_id == cid).map(|d| d.next_outbound_htlc_limit_msat).unwrap_or(0);
+				if hi < 10_000 {
+					continue;
+				}
+				let amt = 2000 + rng.below((hi / 4).max(1));
+				use crate::sim::SendOpts;
+				let other_reg = sim.w.regs.iter().rev().find(|r| r.dst == dst).map(|r| r.idx);
+				let staged: Option<usize> = sim.w.payments.iter().rev().find(|p| p.class == "staged-mpp" && p.dst == dst && p.src == src && sim.w.step - p.step < 40 && !sim.w.payments.iter().any(|q| q.reg == p.reg && q.class == "staged-mpp-2")).map(|p| p.idx);
+				let opts = match rng.below(8) {
+					0 => SendOpts { secret_flip: Some(rng.below(256) as u8), class: "wrong-secret", ..Default::default() },
+					1 if other_reg.is_some() => SendOpts { secret_of_reg: other_reg, class: "foreign-secret", ..Default::default() },
+					2 => SendOpts { min_value: Some(amt + *rng.pick(&[1u64, 2, 1000, amt])), class: "underpaid", ..Default::default() },
+					3 => SendOpts { declared_total: Some(amt + *rng.pick(&[1u64, 1000, amt])), class: "incomplete-mpp", ..Default::default() },
+					4 | 5 if staged.is_none() => SendOpts { declared_total: Some(amt * 2), min_value: Some(amt * 2), class: "staged-mpp", ..Default::default() },
+					_ => match staged {
+						Some(k) => SendOpts { reg: Some(sim.w.payments[k].reg), declared_total: Some(sim.w.payments[k].declared_total), class: "staged-mpp-2", ..Default::default() },
+						None => SendOpts { min_value: Some(amt), class: "exact-registered-amount", ..Default::default() },
+					},
+				};
+				let amt = if let (Some(k), "staged-mpp-2") = (staged, opts.class) { sim.w.payments[k].declared_total - sim.w.payments[k].amt } else { amt };
+				sim.w.note(format!("SEND-{} node{}->node{} amt={} via {:?}", opts.class, src, dst, amt, chans));
+				let _ = sim.w.send_payment_ex(src, &[(chans, amt)], 80, opts, None);
+			},
+			19 => {
+				// a second send under the id of an earlier payment
+				if !sim.w.payments.is_empty() {
+					let lo = sim.w.payments.len().saturating_sub(6);
+					let k = lo + rng.below((sim.w.payments.len() - lo) as u64) as usize;
+					let p = &sim.w.payments[k];
+					if p.parts.iter().all(|(cs, _)| cs.iter().all(|c| !sim.w.chans[*c].closed)) && !sim.w.nodes[p.src].persister.dead.load(Ordering::SeqCst) {
+						sim.w.note(format!("DUP-SEND payment#{} again under the same id", k));
+						sim.w.dup_send(k);
+					}
+				}
+			},
+			20 => {
+				// an event handler that refuses one event (it must be replayed)
+				let k = rng.below(n as u64) as usize;
+				let at = rng.below(3) as usize;
+				sim.w.note(format!("EVENTS node{} with the handler refusing event {}", k, at));
+				sim.w.process_events_failing(k, at);
+			},
 			_ => {
 				if prof.allow_force_close && rng.chance(1, 3) {
 					let open: Vec<usize> = sim.w.chans.iter().filter(|c| !c.closed && c.ready).map(|c| c.idx).collect();
@@ -608,6 +719,23 @@ fn drive(sim: &mut Sim, prof: &Profile, rng: &mut Rng, rep: &mut Report, ctype: 
 	sim.w.step += 1;
 	sim.w.note("FINAL SETTLE".to_string());
 	let mut ok = sim.w.settle(100);
+	if ok && prof.pay_workload && !sim.w.any_dead() {
+		// let multi-part timeouts run out and the holding cells drain before the last judgement
+		sim.dispatch(rep);
+		for _ in 0..5 {
+			for k in 0..n {
+				sim.w.obs.push_back(Obs::Api { step: sim.w.step, node: k, call: "timer_tick".into(), result: String::new() });
+				sim.w.nodes[k].mgr.timer_tick_occurred();
+				sim.w.nodes[k].mgr.process_pending_htlc_forwards();
+				sim.w.pump(k);
+			}
+			ok = sim.w.settle(100);
+			sim.dispatch(rep);
+			if !ok {
+				break;
+			}
+		}
+	}
 	sim.dispatch(rep);
 	if !ok && sim.w.any_dead() {
 		// the armed crash fired during the final settle: recover and settle again
@@ -624,6 +752,9 @@ fn drive(sim: &mut Sim, prof: &Profile, rng: &mut Rng, rep: &mut Report, ctype: 
 	if ok {
 		rep.count("settle_points_reached");
 		rep.count("runs_settled_at_end");
+		for m in sim.mons.iter_mut() {
+			m.before_final_settle();
+		}
 		sim.settled(rep);
 	} else {
 		rep.count("settle_budget_exhausted");
